@@ -9,7 +9,8 @@ EXPLANATION = ("C06: every rejection the property names is shown to be a guard t
                "constant !0 or were compared with 0 and the right array length while still 64-bit; (R3) the VLQ reader's "
                "leftover/no-values/overflow/foreign-byte guards; (R4) every error variant is still constructed; (R5) the "
                "range-mapping bitfield reader rejects foreign bytes."
-               " (R8) the arrays the indices were checked against reach the map unshortened; (R9) kind dispatch cannot route a regular map around decode_regular; (R10) decode_hermes hands the raw map over as parsed.")
+               " (R8) the arrays the indices were checked against reach the map unshortened; (R9) kind dispatch cannot route a regular map around decode_regular; (R10) decode_hermes hands the raw map over as parsed."
+               " (R11) the decode loop accumulators are reset/advanced only as the v3 format says, so an index that passed its range check is the index stored.")
 NOT_DECIDED = "nothing value-level beyond the listed guards; table contents are decided by C11.R1."
 
 
